@@ -32,8 +32,22 @@ res['applies'] = rc == 0
 rc, out = sh('go build ./...')
 res['builds'] = rc == 0
 pkgs = sorted(set('./' + os.path.dirname(l[6:]) + '/...' for l in open(src + '/patch.diff') if l.startswith('+++ b/')))
+import re
+def failing(out):
+    return sorted(set(re.findall(r'^(?:FAIL|---)\s+(github.com/tendermint/tendermint/\S+)', out, flags=re.M)))
 rc, out = sh('go test -count=1 ' + ' '.join(pkgs))
-res['touched_pkg_tests'] = 'pass' if rc == 0 else 'FAIL: ' + out[-600:]
+bad = [f for f in failing(out) if not f.endswith('state/indexer/sink/psql')]   # psql needs docker (not in the stable baseline)
+if rc != 0 and bad:
+    # packages that also fail on the clean tree (sandbox: DNS, docker, flaky timing) are not the patch's doing
+    sh('git apply -R ' + src + '/patch.diff')
+    rc0, out0 = sh('go test -count=1 ' + ' '.join('./' + b.split('tendermint/tendermint/')[1] for b in bad))
+    sh('git apply ' + src + '/patch.diff')
+    bad = [b for b in bad if b not in failing(out0)]
+    if bad:
+        # timing flakes: one retry with the patch
+        rc1, out1 = sh('go test -count=1 ' + ' '.join('./' + b.split('tendermint/tendermint/')[1] for b in bad))
+        bad = failing(out1)
+res['touched_pkg_tests'] = 'pass' if not bad else 'FAIL: ' + ' '.join(bad) + out[-400:]
 put_demo()
 rc, out = sh(meta['demo_cmd'])
 res['demo_with_change'] = 'fails' if rc != 0 else 'PASSES'
